@@ -325,7 +325,27 @@ func ruleNilableTimer(c *Ctx, r *R) {
 					}
 				}
 			})
-			if !safe && c.nameOf(rootFn(fn)) == "xtime.JitterTicker.Stop" {
+			var onlyFromStop func(f *ssa.Function, d int) bool
+			onlyFromStop = func(f *ssa.Function, d int) bool {
+				if c.nameOf(rootFn(f)) == "xtime.JitterTicker.Stop" {
+					return true
+				}
+				// an unexported helper called from Stop only (t.stopLocked())
+				if d > 2 || f.Parent() != nil || token.IsExported(f.Name()) {
+					return false
+				}
+				sites := callSitesOf(c, f)
+				if len(sites) == 0 {
+					return false
+				}
+				for _, site := range sites {
+					if !onlyFromStop(site.Parent(), d+1) {
+						return false
+					}
+				}
+				return true
+			}
+			if !safe && onlyFromStop(fn, 0) {
 				r.excepted(c.nameOf(fn)+"|timer-deref#"+itoa(n), call.Pos(), "Stop on a ticker that is already stopped dereferences the nil timer; a second Stop is outside C20's statement (which covers New/Reset/ticks/one Stop), so this site is listed, not claimed")
 				return
 			}
